@@ -3,6 +3,8 @@ package props
 import (
 	"context"
 	"fmt"
+	"sync"
+	"sync/atomic"
 	"testing"
 
 	"github.com/herohde/morlock/pkg/board/fen"
@@ -210,5 +212,102 @@ func TestC14_engine(t *testing.T) {
 	runRapid(t, "C14/engine", 32000, genEngineCase, func(c engineCase) error {
 		stats.Sample("C14/engine", c)
 		return checkC14Engine(c)
+	})
+}
+
+// C14/concurrent: the engine serialises its methods (one mutex), so a FEN asked for by another
+// goroutine while moves are played and taken back is the FEN of some state the game was in -
+// never a mixture of two.
+type concFenCase struct {
+	FEN     string   `json:"fen"`
+	Moves   []string `json:"moves"`
+	Laps    int      `json:"laps"`    // the writer plays the line forward and takes it all back, this many times
+	Readers int      `json:"readers"` // goroutines asking for the position meanwhile
+}
+
+var checkC14Concurrent = def("C14/concurrent", func(c concFenCase) error {
+	ctx := context.Background()
+	st, err := oracle.ParseFEN(c.FEN)
+	if err != nil {
+		return fmt.Errorf("case: %v", err)
+	}
+	g := oracle.NewGame(st)
+	valid := map[string]bool{g.Cur().FEN(): true}
+	for _, mv := range c.Moves {
+		om, ok := g.Cur().Pos.FindMove(mv)
+		if !ok {
+			return fmt.Errorf("case: move %s not legal", mv)
+		}
+		g.Push(om)
+		valid[g.Cur().FEN()] = true
+	}
+	e := newPlainEngine()
+	if err := e.Reset(ctx, c.FEN); err != nil {
+		return err
+	}
+	var stop atomic.Bool
+	var wg sync.WaitGroup
+	bad := make([]string, c.Readers)
+	reads := make([]int64, c.Readers)
+	for r := 0; r < c.Readers; r++ {
+		r := r
+		wg.Add(1)
+		go func() {
+			defer wg.Done()
+			for !stop.Load() {
+				f := e.Position()
+				reads[r]++
+				if !valid[f] {
+					bad[r] = f
+					return
+				}
+			}
+		}()
+	}
+	var werr error
+writer:
+	for lap := 0; lap < c.Laps; lap++ {
+		for _, mv := range c.Moves {
+			if werr = e.Move(ctx, mv); werr != nil {
+				break writer
+			}
+		}
+		for range c.Moves {
+			if werr = e.TakeBack(ctx); werr != nil {
+				break writer
+			}
+		}
+	}
+	stop.Store(true)
+	wg.Wait()
+	if werr != nil {
+		return fmt.Errorf("writer: %v", werr)
+	}
+	var total int64
+	for r := range bad {
+		total += reads[r]
+		if bad[r] != "" {
+			return fmt.Errorf("while moves were played and taken back, Engine.Position() reported %q, which is the FEN of no state of this game (start %s, line %v)", bad[r], c.FEN, c.Moves)
+		}
+	}
+	if got := e.Position(); got != c.FEN {
+		return fmt.Errorf("after %d laps of play and take-back Engine.Position()=%q, start was %q", c.Laps, got, c.FEN)
+	}
+	stats.Case("C14/concurrent", stats.FP(c.FEN, fmt.Sprint(c.Moves), c.Laps, c.Readers), total > 0 && len(c.Moves) > 0, fmt.Sprintf("readers:%d", c.Readers))
+	stats.Note("C14/concurrent", "concurrent_reads", total)
+	stats.Note("C14/concurrent", "writer_ops", int64(2*c.Laps*len(c.Moves)))
+	return nil
+})
+
+func TestC14_concurrent(t *testing.T) {
+	runRapid(t, "C14/concurrent", 640, func(t *rapid.T) concFenCase {
+		gc, _ := gen.Game(t, 24)
+		if len(gc.Moves) == 0 {
+			gc, _ = gen.Play(t, oracle.MustFEN(oracle.InitialFEN), 6, gen.DrawPolicy(t))
+		}
+		return concFenCase{FEN: gc.FEN, Moves: gc.Moves, Laps: rapid.IntRange(20, 120).Draw(t, "laps"), Readers: rapid.IntRange(1, 4).Draw(t, "readers")}
+	}, func(c concFenCase) error {
+		stats.Sample("C14/concurrent", c)
+		return checkC14Concurrent(c)
 	})
 }
